@@ -46,7 +46,7 @@ _CLS = {}
 
 
 def budget(tier):
-    return {"examples": 3000 if tier == "quick" else 100000, "shards": 16, "shrink": 300 if tier == "quick" else 1500}
+    return {"examples": 8000 if tier == "quick" else 100000, "shards": 16, "shrink": 300 if tier == "quick" else 1500}
 
 
 def nontrivial(labels):
